@@ -230,10 +230,10 @@ Proof.
   pose proof (write_to_store p (load_writes c (store_of s p)) s st E) as S.
   destruct (write_to p (load_writes c (store_of s p)) s) as [s1 evs]. cbn in *.
   destruct C as (C1 & C2 & C3 & C4 & C5).
-  repeat split; try assumption.
-  - unfold store_of at 1. cbn. fold (store_of s1 p). rewrite S, <- (store_of_nth _ _ _ E) at 1.
-    rewrite (store_of_nth _ _ _ E). apply load_writes_loaded.
-  - unfold store_of at 1. cbn. fold (store_of s1 p). rewrite S. now rewrite (store_of_nth _ _ _ E).
+  assert (SV : store_of (set_view s1 (Some p)) p = store_of s1 p) by reflexivity.
+  rewrite (store_of_nth _ _ _ E) in *.
+  split; [reflexivity|]. split; [exact C1|]. split; [exact C2|]. split; [exact C3|]. split; [congruence|].
+  split; [exact O|]. split; [exact Len|]. rewrite SV, S. split; [apply load_writes_loaded|reflexivity].
 Qed.
 
 Lemma start_turn_spec c s :
@@ -251,10 +251,9 @@ Proof.
   assert (M : mplayer s2 = Some (cur s)) by (cbn; congruence).
   assert (L2 : (cur s < length (players s2))%nat) by (cbn; lia).
   pose proof (mode_start_spec c s2 (cur s) M L2) as (A1 & A2 & A3 & A4 & A5 & A6 & A7 & A8 & _).
-  destruct (mode_start c s2) as [s3 e3]. cbn in *.
-  repeat split; try congruence.
-  - intros j N. rewrite A6 by exact N. cbn. now apply O.
-  - lia.
+  destruct (mode_start c s2) as [s3 e3]. subst s2. cbn in *.
+  split; [exact A1|]. split; [congruence|]. split; [congruence|]. split; [congruence|]. split; [congruence|].
+  split; [intros j N; rewrite A6 by exact N; now apply O|]. split; [congruence|exact A8].
 Qed.
 
 Lemma inv_init c : inv c init_state.
@@ -318,3 +317,1182 @@ Proof.
       assert (Ec : cur s1 = cur s) by apply C1. rewrite Ec in *.
       split; [eapply same_ctl_trans; eauto|]. split; [eapply others_same_trans; eauto|]. split; [lia|auto].
 Qed.
+
+(* ====================================================================================== *)
+(* persisted device state                                                                 *)
+
+Definition persist_keys (c : cfg) : list name :=
+  map c_var (counters c) ++ map a_var (accruals c) ++ flat_map (fun x => [s_var x; s_envar x]) (shots c).
+
+(* the configuration does not keep device state in the variables the game loop itself writes *)
+Definition cfg_ok (c : cfg) : bool :=
+  forallb (fun k => negb (k =? n_ball) && negb (k =? n_extra_balls)) (persist_keys c).
+
+Definition persisted (c : cfg) (st st' : store) : Prop :=
+  forall k, In k (persist_keys c) -> lookup k st' = lookup k st.
+
+Lemma persisted_refl c st : persisted c st st.
+Proof. intros k _. reflexivity. Qed.
+Lemma persisted_trans c a b d : persisted c a b -> persisted c b d -> persisted c a d.
+Proof. intros H1 H2 k Hk. rewrite H2, H1; auto. Qed.
+
+Lemma cfg_ok_keys c k : cfg_ok c = true -> In k (persist_keys c) -> k <> n_ball /\ k <> n_extra_balls.
+Proof.
+  unfold cfg_ok. intros H Hk. rewrite forallb_forall in H. specialize (H k Hk).
+  apply andb_true_iff in H as [H1 H2].
+  apply negb_true_iff in H1, H2. apply Z.eqb_neq in H1, H2. auto.
+Qed.
+
+Lemma persisted_one c i st x v :
+  cfg_ok c = true -> (x = n_ball \/ x = n_extra_balls) ->
+  persisted c st (fst (apply_writes_store i st [WAdd x v])).
+Proof.
+  intros OK Hx k Hk. apply apply_writes_store_other. constructor; [|constructor]. cbn.
+  destruct (cfg_ok_keys c k OK Hk) as [N1 N2]. destruct Hx; congruence.
+Qed.
+
+Lemma start_turn_persist c s :
+  (cur s < length (players s))%nat -> cfg_ok c = true -> loaded c (store_of s (cur s)) ->
+  persisted c (store_of s (cur s)) (store_of (fst (start_turn c s)) (cur s)).
+Proof.
+  intros L OK Ld. unfold start_turn.
+  destruct (nth_error_lt _ _ L) as (st & E).
+  pose proof (write_to_spec (cur s) [WAdd n_ball (VInt 1)] s) as (C & O & Len).
+  pose proof (write_to_store (cur s) [WAdd n_ball (VInt 1)] s st E) as S1.
+  destruct (write_to (cur s) [WAdd n_ball (VInt 1)] s) as [s1 e1]. cbn [fst] in C, O, Len, S1.
+  destruct C as (C1 & C2 & C3 & C4 & C5).
+  set (s2 := set_mplayer s1 (Some (cur s1))).
+  assert (M : mplayer s2 = Some (cur s)) by (cbn; congruence).
+  assert (L2 : (cur s < length (players s2))%nat) by (cbn; lia).
+  pose proof (mode_start_spec c s2 (cur s) M L2) as (_ & _ & _ & _ & _ & _ & _ & _ & A9).
+  destruct (mode_start c s2) as [s3 e3]. cbn [fst] in *. rewrite A9.
+  assert (S2 : store_of s2 (cur s) = store_of s1 (cur s)) by reflexivity. rewrite S2, S1.
+  rewrite (store_of_nth _ _ _ E) in *.
+  rewrite load_writes_nil by (now apply loaded_write). cbn [apply_writes_store fst].
+  apply persisted_one; auto.
+Qed.
+
+(* ====================================================================================== *)
+(* one operation                                                                          *)
+
+Definition frame_step (s s' : state) : Prop :=
+  forall j st, j <> cur s -> j <> cur s' ->
+    nth_error (players s) j = Some st -> nth_error (players s') j = Some st.
+
+Definition persist_step (c : cfg) (s s' : state) (o : op) : Prop :=
+  cfg_ok c = true -> forall i, (i < length (players s))%nat -> loaded c (store_of s i) ->
+    (cur s = i -> forall e, o <> Post e) ->
+    persisted c (store_of s i) (store_of s' i) /\ loaded c (store_of s' i).
+
+Definition step_ok (c : cfg) (s s' : state) (o : op) : Prop :=
+  inv c s' /\
+  (ingame s = true -> ingame s' = true ->
+   (length (players s) <= length (players s'))%nat /\ frame_step s s' /\ persist_step c s s' o).
+
+Lemma inv_ingame c s : inv c s -> ingame s = true ->
+  view s = Some (cur s) /\ mplayer s = Some (cur s) /\ (cur s < length (players s))%nat
+  /\ loaded c (store_of s (cur s)).
+Proof. unfold inv. intros H G. now rewrite G in H. Qed.
+
+Lemma others_frame i s s' : others_same i s s' -> forall j st, j <> i ->
+  nth_error (players s) j = Some st -> nth_error (players s') j = Some st.
+Proof. intros O j st N E. now rewrite O. Qed.
+
+Lemma end_ball_ok c s o :
+  inv c s -> ingame s = true -> (forall e, o <> Post e) -> step_ok c s (fst (end_ball c s)) o.
+Proof.
+  intros I G NP. destruct (inv_ingame c s I G) as (V & M & L & Ld).
+  destruct (nth_error_lt _ _ L) as (st & E).
+  unfold end_ball, mode_stop.
+  change (cur (set_view s None)) with (cur s).
+  change (store_of (set_view s None) (cur s)) with (store_of s (cur s)).
+  rewrite (store_of_nth _ _ _ E).
+  destruct (truthy (getvar n_extra_balls st)).
+  - (* extra ball: same player shoots again *)
+    set (s0 := set_view s None).
+    pose proof (write_to_spec (cur s) [WAdd n_extra_balls (VInt (-1))] s0) as (C & O & Len).
+    pose proof (write_to_store (cur s) [WAdd n_extra_balls (VInt (-1))] s0 st E) as S1.
+    destruct (write_to (cur s) [WAdd n_extra_balls (VInt (-1))] s0) as [s1 e1]. cbn [fst] in C, O, Len, S1.
+    destruct C as (C1 & C2 & C3 & C4 & C5). cbn in C1, C2, C3, C4, C5, Len.
+    assert (M1 : mplayer s1 = Some (cur s)) by congruence.
+    assert (L1 : (cur s < length (players s1))%nat) by lia.
+    pose proof (mode_start_spec c s1 (cur s) M1 L1) as (A1 & A2 & A3 & A4 & A5 & A6 & A7 & A8 & A9).
+    destruct (mode_start c s1) as [s2 e2]. cbn [fst] in *.
+    assert (G2 : ingame s2 = true) by congruence.
+    assert (Cu : cur s2 = cur s) by congruence.
+    split.
+    + unfold inv. rewrite G2, Cu. split; [congruence|]. split; [congruence|]. split; [lia|exact A8].
+    + intros _ _. split; [lia|]. split.
+      * intros j x N1 N2 Ej. rewrite A6 by exact N1. now rewrite O.
+      * intros OK i Li Ldi _. destruct (Nat.eq_dec i (cur s)) as [->|N].
+        -- rewrite A9, S1. rewrite (store_of_nth _ _ _ E) in *.
+           pose proof (loaded_write (cur s) st [WAdd n_extra_balls (VInt (-1))] c Ld) as LW.
+           rewrite (load_writes_nil _ _ LW). cbn [apply_writes_store fst].
+           split; [apply persisted_one; auto|exact LW].
+        -- assert (Es : store_of s2 i = store_of s i).
+           { unfold store_of. rewrite A6 by exact N. now rewrite O. }
+           rewrite Es. split; [apply persisted_refl|exact Ldi].
+  - (* the turn ends *)
+    cbn [set_mplayer set_view players ending].
+    destruct (ending s || (bpg c <=? as_int (getvar n_ball st))
+                          && (as_int (getvar n_number st) =? Z.of_nat (length (players s)))) eqn:GO.
+    + cbn. split; [apply inv_init|]. intros _ F. discriminate F.
+    + set (nxt := if as_int (getvar n_number st) <? Z.of_nat (length (players s))
+                  then Z.to_nat (as_int (getvar n_number st)) else 0%nat).
+      set (s1 := set_cur (set_mplayer (set_view s None) None) nxt).
+      assert (Ln : (nxt < length (players s1))%nat).
+      { cbn. unfold nxt. destruct (as_int (getvar n_number st) <? Z.of_nat (length (players s))) eqn:Q; [|lia].
+        apply Z.ltb_lt in Q. lia. }
+      pose proof (start_turn_spec c s1 Ln) as (B1 & B2 & B3 & B4 & B5 & B6 & B7 & B8).
+      pose proof (start_turn_persist c s1 Ln) as PS.
+      destruct (start_turn c s1) as [s2 e2]. cbn in *.
+      split.
+      * unfold inv. rewrite B4, G. rewrite B3. repeat split; try assumption. lia.
+      * intros _ _. split; [lia|]. split.
+        -- intros j x N1 N2 Ej. rewrite B3 in N2. now rewrite B6.
+        -- intros OK i Li Ldi _. destruct (Nat.eq_dec i nxt) as [->|N].
+           ++ split; [now apply PS|exact B8].
+           ++ assert (Es : store_of s2 i = store_of s i) by (unfold store_of; now rewrite B6).
+              rewrite Es. split; [apply persisted_refl|exact Ldi].
+Qed.
+
+Lemma step_ok_all c s o : inv c s -> step_ok c s (fst (step c s o)) o.
+Proof.
+  intros I. destruct o as [|e| |]; cbn [step].
+  - (* Start *)
+    destruct (ingame s) eqn:G.
+    + destruct (inv_ingame c s I G) as (V & M & L & Ld).
+      destruct (negb (ending s) && (Z.of_nat (length (players s)) <? maxp c)
+                && negb (1 <? as_int (getvar n_ball (store_of s (cur s))))).
+      * cbn. assert (Sx : forall i, (i < length (players s))%nat ->
+                       store_of (set_players s (players s ++ [fresh_player c (length (players s))])) i
+                       = store_of s i).
+        { intros i Li. unfold store_of. cbn. now rewrite nth_error_app1. }
+        split.
+        -- unfold inv. cbn. rewrite G. repeat split; try assumption.
+           ++ rewrite app_length. cbn. lia.
+           ++ rewrite Sx by exact L. exact Ld.
+        -- intros _ _. split; [cbn; rewrite app_length; cbn; lia|]. split.
+           ++ intros j x _ _ Ej. cbn. rewrite nth_error_app1; [exact Ej|]. apply nth_error_Some. congruence.
+           ++ intros OK i Li Ldi _. rewrite Sx by exact Li. split; [apply persisted_refl|exact Ldi].
+      * cbn. split; [exact I|]. intros _ _. split; [lia|]. split.
+        -- intros j x _ _ Ej. exact Ej.
+        -- intros OK i Li Ldi _. split; [apply persisted_refl|exact Ldi].
+    + set (s0 := mkSt [] 0 true false None None).
+      destruct (add_player c s0) as [s1 e1] eqn:A.
+      unfold add_player in A. injection A as A1 A2.
+      assert (L1 : (cur s1 < length (players s1))%nat) by (subst s1; cbn; lia).
+      assert (G1 : ingame s1 = true) by (subst s1; reflexivity).
+      pose proof (start_turn_spec c s1 L1) as (B1 & B2 & B3 & B4 & B5 & B6 & B7 & B8).
+      destruct (start_turn c s1) as [s2 e2]. cbn [fst] in *.
+      split; [|intros F; congruence].
+      unfold inv. rewrite B4, G1, B3. split; [exact B1|]. split; [exact B2|]. split; [lia|exact B8].
+  - (* Post *)
+    destruct (ingame s) eqn:G.
+    + destruct (inv_ingame c s I G) as (V & M & L & Ld).
+      pose proof (run_queue_spec c 8 s [e] V) as (C & O & Len & D).
+      destruct (run_queue 8 c s [e]) as [s1 e1]. cbn in *.
+      destruct C as (C1 & C2 & C3 & C4 & C5).
+      split.
+      * unfold inv. rewrite C2, G, C1. split; [congruence|]. split; [congruence|]. split; [lia|auto].
+      * intros _ _. split; [lia|]. split.
+        -- intros j x N1 _ Ej. now rewrite O.
+        -- intros OK i Li Ldi NP. destruct (Nat.eq_dec (cur s) i) as [Ei|N].
+           ++ exfalso. exact (NP Ei e eq_refl).
+           ++ assert (Es : store_of s1 i = store_of s i) by (unfold store_of; rewrite O; auto).
+              rewrite Es. split; [apply persisted_refl|exact Ldi].
+    + cbn. split; [exact I|]. intros F; congruence.
+  - (* Drain *)
+    destruct (ingame s) eqn:G.
+    + apply end_ball_ok; auto. discriminate.
+    + cbn. split; [exact I|]. intros F; congruence.
+  - (* EndGame *)
+    destruct (ingame s) eqn:G.
+    + assert (I2 : inv c (set_ending s true)) by (unfold inv in *; cbn; rewrite G in *; exact I).
+      pose proof (end_ball_ok c (set_ending s true) EndGame I2 G) as (A & B); [discriminate|].
+      split; [exact A|]. intros _ G2. exact (B G G2).
+    + cbn. split; [exact I|]. intros F; congruence.
+Qed.
+
+(* ====================================================================================== *)
+(* histories                                                                              *)
+
+Fixpoint run (c : cfg) (s : state) (ops : list op) : state :=
+  match ops with
+  | [] => s
+  | o :: r => run c (fst (step c s o)) r
+  end.
+
+Lemma run_inv c : forall ops s, inv c s -> inv c (run c s ops).
+Proof.
+  induction ops as [|o r IH]; intros s I; cbn; [exact I|].
+  apply IH. apply (step_ok_all c s o I).
+Qed.
+
+Lemma reachable_inv_l c ops : inv c (run c init_state ops).
+Proof. apply run_inv, inv_init. Qed.
+
+(* in every reachable state of a running game the devices of the game mode are bound to the
+   current player *)
+Lemma view_is_current_l c ops :
+  let s := run c init_state ops in ingame s = true -> view s = Some (cur s) /\ mplayer s = Some (cur s).
+Proof.
+  intros s G. pose proof (reachable_inv_l c ops) as I. fold s in I.
+  destruct (inv_ingame c s I G) as (V & M & _). auto.
+Qed.
+
+(* "during player i's turn": after every operation the game is running and i is the current player *)
+Fixpoint turn_of (i : nat) (c : cfg) (s : state) (ops : list op) : Prop :=
+  match ops with
+  | [] => True
+  | o :: r => let s' := fst (step c s o) in ingame s' = true /\ cur s' = i /\ turn_of i c s' r
+  end.
+
+Lemma other_player_frame_l c : forall ops s i,
+  inv c s -> ingame s = true -> cur s = i -> turn_of i c s ops ->
+  forall j st, j <> i -> nth_error (players s) j = Some st ->
+               nth_error (players (run c s ops)) j = Some st.
+Proof.
+  induction ops as [|o r IH]; intros s i I G C T j st N E; cbn; [exact E|].
+  cbn in T. destruct T as (G' & C' & T').
+  destruct (step_ok_all c s o I) as (I' & K). destruct (K G G') as (_ & F & _).
+  eapply IH; eauto. apply F; congruence.
+Qed.
+
+(* one operation, any player that is neither the one whose turn it was nor the one whose turn it is *)
+Lemma step_frame_l c s o : inv c s -> ingame s = true -> ingame (fst (step c s o)) = true ->
+  forall j st, j <> cur s -> j <> cur (fst (step c s o)) ->
+    nth_error (players s) j = Some st -> nth_error (players (fst (step c s o))) j = Some st.
+Proof.
+  intros I G G'. destruct (step_ok_all c s o I) as (_ & K). destruct (K G G') as (_ & F & _). exact F.
+Qed.
+
+(* ---- restore --------------------------------------------------------------------------- *)
+Definition reads_of (c : cfg) (st : store) : list (option value) :=
+  map (fun x => lookup (c_var x) st) (counters c)
+  ++ map (fun x => lookup (a_var x) st) (accruals c)
+  ++ flat_map (fun x => [Some (getvar (s_var x) st); Some (getvar (s_envar x) st)]) (shots c).
+
+Lemma reads_view c s v : view s = Some v -> reads c s = reads_of c (store_of s v).
+Proof. intros V. unfold reads. now rewrite V. Qed.
+
+Lemma reads_of_persisted c st st' : persisted c st st' -> reads_of c st' = reads_of c st.
+Proof.
+  intros P. unfold reads_of. f_equal; [|f_equal].
+  - apply map_ext_in. intros x Hx. apply P. unfold persist_keys. apply in_or_app; left. now apply in_map.
+  - apply map_ext_in. intros x Hx. apply P. unfold persist_keys.
+    apply in_or_app; right; apply in_or_app; left. now apply in_map.
+  - rewrite !flat_map_concat_map. f_equal. apply map_ext_in. intros x Hx.
+    assert (A : In (s_var x) (persist_keys c)).
+    { unfold persist_keys. apply in_or_app; right; apply in_or_app; right.
+      apply in_flat_map. exists x. split; [exact Hx|now left]. }
+    assert (B : In (s_envar x) (persist_keys c)).
+    { unfold persist_keys. apply in_or_app; right; apply in_or_app; right.
+      apply in_flat_map. exists x. split; [exact Hx|right; now left]. }
+    unfold getvar. now rewrite (P _ A), (P _ B).
+Qed.
+
+(* along the history, nothing but hand-over happens while it is player i's turn: progress events
+   (Post) are only delivered during other players' turns *)
+Fixpoint quiet_for (i : nat) (c : cfg) (s : state) (ops : list op) : Prop :=
+  match ops with
+  | [] => True
+  | o :: r => let s' := fst (step c s o) in
+              (cur s = i -> forall e, o <> Post e) /\ ingame s' = true /\ quiet_for i c s' r
+  end.
+
+Lemma persisted_along c : cfg_ok c = true -> forall ops s i,
+  inv c s -> ingame s = true -> (i < length (players s))%nat -> loaded c (store_of s i) ->
+  quiet_for i c s ops ->
+  persisted c (store_of s i) (store_of (run c s ops) i).
+Proof.
+  intros OK. induction ops as [|o r IH]; intros s i I G L Ld Q; cbn; [apply persisted_refl|].
+  cbn in Q. destruct Q as (NP & G' & Q').
+  destruct (step_ok_all c s o I) as (I' & K). destruct (K G G') as (Len & _ & P).
+  destruct (P OK i L Ld NP) as (P1 & Ld1).
+  eapply persisted_trans; [exact P1|]. apply IH; auto. lia.
+Qed.
+
+Lemma restore_exact_l c : cfg_ok c = true -> forall ops s i,
+  inv c s -> ingame s = true -> cur s = i -> quiet_for i c s ops ->
+  ingame (run c s ops) = true -> cur (run c s ops) = i ->
+  reads c (run c s ops) = reads c s.
+Proof.
+  intros OK ops s i I G C Q G' C'. subst i.
+  destruct (inv_ingame c s I G) as (V & _ & L & Ld).
+  pose proof (run_inv c ops s I) as I'.
+  destruct (inv_ingame c _ I' G') as (V' & _).
+  rewrite (reads_view c _ _ V'), (reads_view c _ _ V), C'.
+  apply reads_of_persisted. apply persisted_along; auto.
+Qed.
+
+(* ---- new game ---------------------------------------------------------------------------- *)
+Lemma new_game_independent_l c s1 s2 :
+  ingame s1 = false -> ingame s2 = false -> step c s1 Start = step c s2 Start.
+Proof. intros H1 H2. cbn. now rewrite H1, H2. Qed.
+
+Definition first_store (c : cfg) : store :=
+  let st1 := fst (apply_writes_store 0 (fresh_player c 0) [WAdd n_ball (VInt 1)]) in
+  fst (apply_writes_store 0 st1 (load_writes c st1)).
+
+Lemma new_game_initial_l c s :
+  ingame s = false ->
+  let s' := fst (step c s Start) in
+  players s' = [first_store c] /\ cur s' = 0%nat /\ ingame s' = true /\ ending s' = false
+  /\ view s' = Some 0%nat.
+Proof.
+  intros H. cbn [step]. rewrite H.
+  unfold add_player. cbn [players length app set_players].
+  unfold start_turn, write_to, apply_writes. cbn [players cur nth_error set_players].
+  destruct (apply_writes_store 0 (fresh_player c 0) [WAdd n_ball (VInt 1)]) as [st1 e1] eqn:A.
+  cbn [upd_nth set_players players cur set_mplayer mode_start mplayer].
+  unfold write_to, apply_writes, store_of. cbn [players nth_error].
+  destruct (apply_writes_store 0 st1 (load_writes c st1)) as [st2 e2] eqn:B.
+  cbn. unfold first_store. rewrite A. cbn [fst]. rewrite B. auto.
+Qed.
+
+Lemma added_player_fresh_l c s :
+  ingame s = true ->
+  let s' := fst (step c s Start) in
+  players s' = players s \/ players s' = players s ++ [fresh_player c (length (players s))].
+Proof.
+  intros H. cbn [step]. rewrite H.
+  destruct (negb (ending s) && (Z.of_nat (length (players s)) <? maxp c)
+            && negb (1 <? as_int (getvar n_ball (store_of s (cur s))))); cbn; auto.
+Qed.
+
+(* ====================================================================================== *)
+(* player_<var> events                                                                    *)
+
+Definition is_absent (x : name) (st : store) : bool :=
+  match lookup x st with None => true | Some _ => false end.
+
+(* one assignment: the variable holds the new value, nothing else changes, and exactly one event is
+   posted iff the value is an int/str/float and it is a new variable or an effective change *)
+Lemma assign_exact_l i st x v :
+  let prev := getvar x st in
+  let change := change_of v prev in
+  lookup x (fst (assign i st x v)) = Some v
+  /\ (forall y, y <> x -> lookup y (fst (assign i st x v)) = lookup y st)
+  /\ snd (assign i st x v)
+     = if simple v && (truthy change || is_absent x st)
+       then [mkEv i x v prev change (numvar (sset x v st)) (is_absent x st) false]
+       else [].
+Proof.
+  cbn zeta. split; [rewrite assign_store; apply lookup_sset_same|].
+  split; [intros y N; rewrite assign_store; apply lookup_sset_other; congruence|].
+  unfold assign, getvar, is_absent. destruct (lookup x st) as [p|]; cbn [snd];
+    rewrite (andb_comm (simple v));
+    match goal with |- context [if ?b then _ else _] => destruct b end; reflexivity.
+Qed.
+
+Lemma change_int a b : change_of (VInt a) (VInt b) = VInt (a - b).
+Proof.
+  unfold change_of, py_sub. cbn [num8 orb mknum]. f_equal.
+  replace (8 * a - 8 * b) with ((a - b) * 8) by lia. apply Z.div_mul. lia.
+Qed.
+Lemma change_float a b : change_of (VF8 a) (VF8 b) = VF8 (a - b).
+Proof. reflexivity. Qed.
+Lemma change_str a b : change_of (VStr a) (VStr b) = VBool (negb (zs_eqb b a)).
+Proof. reflexivity. Qed.
+
+(* no event for a no-op assignment of an int / float / str to an existing variable of the same kind,
+   and always an event otherwise *)
+Lemma assign_int_noop_iff i st x a b :
+  lookup x st = Some (VInt b) -> (snd (assign i st x (VInt a)) = [] <-> a = b).
+Proof.
+  intros L. destruct (assign_exact_l i st x (VInt a)) as (_ & _ & E). rewrite E.
+  unfold getvar, is_absent. rewrite L, change_int. cbn.
+  destruct (a - b =? 0) eqn:Q; cbn.
+  - apply Z.eqb_eq in Q. split; [lia|reflexivity].
+  - apply Z.eqb_neq in Q. split; [discriminate|lia].
+Qed.
+Lemma assign_float_noop_iff i st x a b :
+  lookup x st = Some (VF8 b) -> (snd (assign i st x (VF8 a)) = [] <-> a = b).
+Proof.
+  intros L. destruct (assign_exact_l i st x (VF8 a)) as (_ & _ & E). rewrite E.
+  unfold getvar, is_absent. rewrite L, change_float. cbn.
+  destruct (a - b =? 0) eqn:Q; cbn.
+  - apply Z.eqb_eq in Q. split; [lia|reflexivity].
+  - apply Z.eqb_neq in Q. split; [discriminate|lia].
+Qed.
+Lemma assign_str_noop_iff i st x a b :
+  lookup x st = Some (VStr b) -> (snd (assign i st x (VStr a)) = [] <-> a = b).
+Proof.
+  intros L. destruct (assign_exact_l i st x (VStr a)) as (_ & _ & E). rewrite E.
+  unfold getvar, is_absent. rewrite L, change_str. cbn.
+  destruct (zs_eqb b a) eqn:Q; cbn.
+  - apply zs_eqb_spec in Q. split; [congruence|reflexivity].
+  - split; [discriminate|]. intros ->. rewrite (proj2 (zs_eqb_spec b b) eq_refl) in Q. discriminate.
+Qed.
+(* a new variable always posts (also when its first value is 0) *)
+Lemma assign_new_posts i st x v :
+  lookup x st = None -> simple v = true ->
+  snd (assign i st x v) = [mkEv i x v (VInt 0) (change_of v (VInt 0)) (numvar (sset x v st)) true false].
+Proof.
+  intros L S. destruct (assign_exact_l i st x v) as (_ & _ & E). rewrite E.
+  unfold getvar, is_absent. rewrite L, S, orb_true_r. reflexivity.
+Qed.
+(* objects (LogicBlockState, lists) never post *)
+Lemma assign_object_silent i st x v : simple v = false -> snd (assign i st x v) = [].
+Proof.
+  intros S. destruct (assign_exact_l i st x v) as (_ & _ & E). rewrite E, S. reflexivity.
+Qed.
+
+(* every event a history ever posts is well-formed *)
+Definition ev_ok (e : event) : Prop :=
+  simple (ev_value e) = true /\
+  if ev_announce e
+  then ev_prev e = ev_value e /\ ev_change e = (if is_str (ev_value e) then VBool false else VInt 0)
+  else ev_change e = change_of (ev_value e) (ev_prev e)
+       /\ (truthy (ev_change e) = true \/ ev_new e = true)
+       /\ (ev_new e = true -> ev_prev e = VInt 0).
+
+Definition evs_ok (i : nat) (l : list event) : Prop := Forall (fun e => ev_ok e /\ ev_idx e = i) l.
+
+Lemma assign_ok i st x v : evs_ok i (snd (assign i st x v)).
+Proof.
+  destruct (assign_exact_l i st x v) as (_ & _ & E). rewrite E.
+  destruct (simple v) eqn:S; cbn [andb]; [|constructor].
+  destruct (truthy (change_of v (getvar x st)) || is_absent x st) eqn:T; [|constructor].
+  constructor; [|constructor]. split; [|reflexivity]. split; [exact S|]. cbn.
+  split; [reflexivity|]. split.
+  - apply orb_true_iff in T. destruct T; auto.
+  - unfold is_absent, getvar. destruct (lookup x st); [discriminate|reflexivity].
+Qed.
+
+Lemma apply_writes_store_ok i : forall ws st, evs_ok i (snd (apply_writes_store i st ws)).
+Proof.
+  induction ws as [|w ws IH]; intros st; cbn; [constructor|].
+  destruct (apply_write i st w) as [st1 e1] eqn:E1.
+  specialize (IH st1). destruct (apply_writes_store i st1 ws) as [st2 e2]. cbn in *.
+  apply Forall_app. split; [|exact IH].
+  change e1 with (snd (st1, e1)). rewrite <- E1.
+  destruct w as [x v|x v]; cbn; [apply assign_ok|].
+  destruct (py_add (getvar x st) v); [apply assign_ok|constructor].
+Qed.
+
+Definition all_ok (l : list event) : Prop := Forall ev_ok l.
+
+Lemma evs_ok_all i l : evs_ok i l -> all_ok l.
+Proof. intros H. eapply Forall_impl; [|exact H]. now intros e [A _]. Qed.
+
+Lemma write_to_ok i ws s : evs_ok i (snd (write_to i ws s)).
+Proof.
+  unfold write_to, apply_writes. destruct (nth_error (players s) i) as [st|]; [|constructor].
+  pose proof (apply_writes_store_ok i ws st) as H.
+  destruct (apply_writes_store i st ws). exact H.
+Qed.
+
+Lemma mode_start_ok c s : all_ok (snd (mode_start c s)).
+Proof.
+  unfold mode_start. destruct (mplayer s) as [p|]; [|constructor].
+  pose proof (write_to_ok p (load_writes c (store_of s p)) s) as H.
+  destruct (write_to p (load_writes c (store_of s p)) s). cbn. eapply evs_ok_all, H.
+Qed.
+
+Lemma start_turn_ok c s : all_ok (snd (start_turn c s)).
+Proof.
+  unfold start_turn.
+  pose proof (write_to_ok (cur s) [WAdd n_ball (VInt 1)] s) as H1.
+  destruct (write_to (cur s) [WAdd n_ball (VInt 1)] s) as [s1 e1].
+  pose proof (mode_start_ok c (set_mplayer s1 (Some (cur s1)))) as H2.
+  destruct (mode_start c (set_mplayer s1 (Some (cur s1)))) as [s3 e3]. cbn in *.
+  apply Forall_app. split; [eapply evs_ok_all, H1|exact H2].
+Qed.
+
+Lemma dispatch_ok c s e : all_ok (snd (fst (dispatch c s e))).
+Proof.
+  unfold dispatch. destruct (view s) as [v|]; [|constructor].
+  destruct (device_handle c (store_of s v) e) as [ws posted].
+  pose proof (write_to_ok v ws s) as H1. destruct (write_to v ws s) as [s1 e1].
+  pose proof (write_to_ok (cur s1) (vp_writes c e) s1) as H2.
+  destruct (write_to (cur s1) (vp_writes c e) s1) as [s2 e2]. cbn in *.
+  apply Forall_app. split; eapply evs_ok_all; eauto.
+Qed.
+
+Lemma run_queue_ok c : forall fuel s q, all_ok (snd (run_queue fuel c s q)).
+Proof.
+  induction fuel as [|f IH]; intros s q; cbn; [constructor|].
+  destruct q as [|e r]; [constructor|].
+  pose proof (dispatch_ok c s e) as H1. destruct (dispatch c s e) as [[s1 e1] posted].
+  specialize (IH s1 (r ++ posted)). destruct (run_queue f c s1 (r ++ posted)) as [s2 e2]. cbn in *.
+  apply Forall_app. split; assumption.
+Qed.
+
+Lemma announce_ok i st : all_ok (announce i st).
+Proof.
+  unfold announce, all_ok. apply Forall_forall. intros e H. apply in_flat_map in H as ([k v] & _ & H).
+  destruct (simple v) eqn:S; [|destruct H]. destruct H as [<-|[]]. split; [exact S|]. cbn. auto.
+Qed.
+
+Lemma end_ball_ok_events c s : all_ok (snd (end_ball c s)).
+Proof.
+  unfold end_ball.
+  destruct (truthy (getvar n_extra_balls (store_of (mode_stop s) (cur (mode_stop s))))).
+  - pose proof (write_to_ok (cur (mode_stop s)) [WAdd n_extra_balls (VInt (-1))] (mode_stop s)) as H1.
+    destruct (write_to (cur (mode_stop s)) [WAdd n_extra_balls (VInt (-1))] (mode_stop s)) as [s1 e1].
+    pose proof (mode_start_ok c s1) as H2. destruct (mode_start c s1) as [s2 e2]. cbn in *.
+    apply Forall_app. split; [eapply evs_ok_all, H1|exact H2].
+  - match goal with |- context [if ?b then _ else _] => destruct b end; [constructor|apply start_turn_ok].
+Qed.
+
+Lemma step_events_ok_l c s o : all_ok (snd (step c s o)).
+Proof.
+  destruct o as [|e| |]; cbn [step].
+  - destruct (ingame s).
+    + match goal with |- context [if ?b then _ else _] => destruct b end; [apply announce_ok|constructor].
+    + set (s0 := mkSt [] 0 true false None None).
+      pose proof (announce_ok (length (players s0)) (fresh_player c (length (players s0)))) as H1.
+      unfold add_player.
+      pose proof (start_turn_ok c (set_players s0 (players s0 ++ [fresh_player c (length (players s0))]))) as H2.
+      destruct (start_turn c (set_players s0 (players s0 ++ [fresh_player c (length (players s0))]))) as [s2 e2].
+      cbn [snd] in *. apply Forall_app. split; assumption.
+  - destruct (ingame s); [apply run_queue_ok|constructor].
+  - destruct (ingame s); [apply end_ball_ok_events|constructor].
+  - destruct (ingame s); [apply end_ball_ok_events|constructor].
+Qed.
+
+(* ====================================================================================== *)
+(* examples: the hypotheses of the theorems are satisfiable on non-trivial states          *)
+
+Definition ex_cfg : cfg :=
+  mkCfg 2 4 [(10, VInt 5); (11, VStr [97])]
+        [mkC 20 100 101 102 103 104 105 0 (Some 3) 1 false true true true]
+        [mkA 30 [120; 121] 125 126 127 128 129 true true true]
+        [mkS 40 41 140 141 142 143 144 145 3 false true]
+        [mkVP 100 n_score true (VInt 10); mkVP 160 n_score true (VInt 100); mkVP 161 12 false (VStr [120]);
+         mkVP 105 14 true (VInt 1000); mkVP 165 n_extra_balls true (VInt 1)].
+
+(* two players; player 1 has counted twice and hit the shot *)
+Definition ex_s : state := run ex_cfg init_state [Start; Start; Post 100; Post 100; Post 140].
+
+Example ex_cfg_ok : cfg_ok ex_cfg = true.
+Proof. reflexivity. Qed.
+
+Example ex_s_shape :
+  ingame ex_s = true /\ cur ex_s = 0%nat /\ length (players ex_s) = 2%nat
+  /\ reads ex_cfg ex_s = [Some (VLB true false (LInt 2)); Some (VLB true false (LBools [false; false]));
+                          Some (VInt 1); Some (VBool true)].
+Proof. vm_compute. repeat split. Qed.
+
+Example ex_inv : inv ex_cfg ex_s.
+Proof. apply reachable_inv_l. Qed.
+
+(* frame: player 1 keeps playing (the counter completes, bonus is awarded, score changes) *)
+Example ex_frame_hyp :
+  turn_of 0 ex_cfg ex_s [Post 100; Post 160; Post 161]
+  /\ nth_error (players (run ex_cfg ex_s [Post 100; Post 160; Post 161])) 0 <> nth_error (players ex_s) 0
+  /\ nth_error (players (run ex_cfg ex_s [Post 100; Post 160; Post 161])) 1 = nth_error (players ex_s) 1.
+Proof.
+  split; [vm_compute; repeat split|]. split; [vm_compute; discriminate|vm_compute; reflexivity].
+Qed.
+
+(* restore: player 1 drains, player 2 plays (completes the counter) and adds a third player, drains,
+   player 3 plays and drains, player 1 is back *)
+Definition ex_away : list op := [Drain; Post 100; Post 100; Post 100; Post 140; Start; Drain; Post 100; Drain].
+Example ex_restore_hyp :
+  quiet_for 0 ex_cfg ex_s ex_away
+  /\ ingame (run ex_cfg ex_s ex_away) = true /\ cur (run ex_cfg ex_s ex_away) = 0%nat
+  /\ nth_error (players (run ex_cfg ex_s ex_away)) 1 <> nth_error (players ex_s) 1
+  /\ reads ex_cfg (run ex_cfg ex_s ex_away) = reads ex_cfg ex_s
+  /\ reads ex_cfg (run ex_cfg ex_s [Drain]) <> reads ex_cfg ex_s.
+Proof.
+  split; [vm_compute; repeat split; intros Hc e H; try discriminate H; discriminate Hc|].
+  split; [reflexivity|]. split; [reflexivity|]. split; [vm_compute; discriminate|].
+  split; [reflexivity|vm_compute; discriminate].
+Qed.
+
+(* events: a new variable whose first value is 0 posts, a repeated set does not *)
+Example ex_events :
+  snd (assign 0 [(n_number, VInt 1)] 13 (VInt 0))
+  = [mkEv 0 13 (VInt 0) (VInt 0) (VInt 0) (VInt 1) true false]
+  /\ snd (assign 0 [(n_number, VInt 1); (13, VInt 0)] 13 (VInt 0)) = []
+  /\ snd (assign 0 [(n_number, VInt 1); (13, VInt 7)] 13 (VStr [120]))
+     = [mkEv 0 13 (VStr [120]) (VInt 7) (VBool true) (VInt 1) false false].
+Proof. repeat split. Qed.
+
+Example ex_new_game :
+  ingame (run ex_cfg ex_s [EndGame]) = false
+  /\ players (fst (step ex_cfg (run ex_cfg ex_s [EndGame]) Start)) = [first_store ex_cfg]
+  /\ reads ex_cfg (fst (step ex_cfg (run ex_cfg ex_s [EndGame]) Start))
+     = [Some (VLB true false (LInt 0)); Some (VLB true false (LBools [false; false]));
+        Some (VInt 0); Some (VBool true)].
+Proof. vm_compute. repeat split. Qed.
+
+(* ====================================================================================== *)
+(* the player number carried by events                                                    *)
+
+Definition write_keys (c : cfg) : list name := persist_keys c ++ map vp_var (vps c).
+
+(* the configuration never writes the built-in variable `number` *)
+Definition cfg_num_ok (c : cfg) : bool := forallb (fun k => negb (k =? n_number)) (write_keys c).
+
+Definition names_in (c : cfg) (ws : list write) : Prop := Forall (fun w => In (wname w) (write_keys c)) ws.
+Definition names_ok (ws : list write) : Prop := Forall (fun w => wname w <> n_number) ws.
+
+Lemma names_in_ok c ws : cfg_num_ok c = true -> names_in c ws -> names_ok ws.
+Proof.
+  unfold cfg_num_ok. intros H. rewrite forallb_forall in H. apply Forall_impl. intros w Hw.
+  specialize (H _ Hw). apply negb_true_iff, Z.eqb_neq in H. exact H.
+Qed.
+
+Lemma in_pk_c c x : In x (counters c) -> In (c_var x) (write_keys c).
+Proof. intros H. unfold write_keys, persist_keys. apply in_or_app; left. apply in_or_app; left. now apply in_map. Qed.
+Lemma in_pk_a c x : In x (accruals c) -> In (a_var x) (write_keys c).
+Proof.
+  intros H. unfold write_keys, persist_keys. apply in_or_app; left. apply in_or_app; right.
+  apply in_or_app; left. now apply in_map.
+Qed.
+Lemma in_pk_s c x : In x (shots c) -> In (s_var x) (write_keys c) /\ In (s_envar x) (write_keys c).
+Proof.
+  intros H. unfold write_keys, persist_keys.
+  split; apply in_or_app; left; apply in_or_app; right; apply in_or_app; right;
+    apply in_flat_map; exists x; (split; [exact H|]); [now left|right; now left].
+Qed.
+
+Lemma counter_handle_names x st e : Forall (fun w => wname w = c_var x) (fst (counter_handle x st e)).
+Proof.
+  unfold counter_handle, lb_complete.
+  repeat match goal with
+         | |- context [match ?t with _ => _ end] => destruct t
+         end; cbn; repeat constructor.
+Qed.
+
+Lemma accrual_handle_names x st e : Forall (fun w => wname w = a_var x) (fst (accrual_handle x st e)).
+Proof.
+  unfold accrual_handle, lb_complete.
+  repeat match goal with
+         | |- context [match ?t with _ => _ end] => destruct t
+         end; cbn; repeat constructor.
+Qed.
+
+Lemma shot_handle_names x st e :
+  Forall (fun w => wname w = s_var x \/ wname w = s_envar x) (shot_handle x st e).
+Proof.
+  unfold shot_handle, shot_advance, shot_reset, shot_enable.
+  repeat match goal with
+         | |- context [if ?t then _ else _] => destruct t
+         end; cbn; repeat first [apply Forall_nil | apply Forall_cons; [cbn; auto|]].
+Qed.
+
+Lemma device_handle_names c st e : names_in c (fst (device_handle c st e)).
+Proof.
+  unfold device_handle, names_in. cbn [fst]. rewrite !Forall_app. repeat split.
+  - apply Forall_flat_map. apply Forall_forall. intros p Hp. apply in_map_iff in Hp as (x & <- & Hx).
+    eapply Forall_impl; [|apply counter_handle_names]. intros w ->. now apply in_pk_c.
+  - apply Forall_flat_map. apply Forall_forall. intros p Hp. apply in_map_iff in Hp as (x & <- & Hx).
+    eapply Forall_impl; [|apply accrual_handle_names]. intros w ->. now apply in_pk_a.
+  - apply Forall_concat. apply Forall_forall. intros p Hp. apply in_map_iff in Hp as (x & <- & Hx).
+    eapply Forall_impl; [|apply shot_handle_names]. intros w [-> | ->]; now apply in_pk_s.
+Qed.
+
+Lemma vp_writes_names c e : names_in c (vp_writes c e).
+Proof.
+  unfold vp_writes, names_in. apply Forall_flat_map. apply Forall_forall. intros p Hp.
+  destruct (vp_ev p =? e); [|constructor]. constructor; [|constructor].
+  unfold write_keys. apply in_or_app; right.
+  destruct (vp_add p); cbn; now apply in_map.
+Qed.
+
+Lemma load_writes_names c st : names_in c (load_writes c st).
+Proof.
+  unfold load_writes, names_in. rewrite !Forall_app. repeat split;
+    apply Forall_flat_map; apply Forall_forall; intros x Hx.
+  - destruct (lookup (c_var x) st); constructor; [|constructor]. now apply in_pk_c.
+  - destruct (lookup (a_var x) st); constructor; [|constructor]. now apply in_pk_a.
+  - destruct (lookup (s_envar x) st); constructor; [|constructor]. now apply in_pk_s.
+Qed.
+
+Definition numbers_ok (s : state) : Prop :=
+  forall i st, nth_error (players s) i = Some st -> lookup n_number st = Some (VInt (Z.of_nat i + 1)).
+
+Definition evs_num_ok (l : list event) : Prop :=
+  Forall (fun e => ev_num e = VInt (Z.of_nat (ev_idx e) + 1)) l.
+
+Lemma assign_num i st x v :
+  x <> n_number -> lookup n_number st = Some (VInt (Z.of_nat i + 1)) -> evs_num_ok (snd (assign i st x v)).
+Proof.
+  intros N L. destruct (assign_exact_l i st x v) as (_ & _ & E). rewrite E.
+  match goal with |- context [if ?b then _ else _] => destruct b end; [|constructor].
+  constructor; [|constructor]. cbn. unfold numvar. rewrite lookup_sset_other by exact N. now rewrite L.
+Qed.
+
+Lemma apply_writes_store_num i : forall ws st,
+  names_ok ws -> lookup n_number st = Some (VInt (Z.of_nat i + 1)) ->
+  evs_num_ok (snd (apply_writes_store i st ws))
+  /\ lookup n_number (fst (apply_writes_store i st ws)) = Some (VInt (Z.of_nat i + 1)).
+Proof.
+  induction ws as [|w ws IH]; intros st H L; cbn; [split; [constructor|exact L]|].
+  inversion H as [|? ? Hw Hws]; subst.
+  assert (L1 : lookup n_number (fst (apply_write i st w)) = Some (VInt (Z.of_nat i + 1)))
+    by (rewrite apply_write_other; auto).
+  assert (E1 : evs_num_ok (snd (apply_write i st w))).
+  { destruct w as [x v|x v]; cbn in *; [now apply assign_num|].
+    destruct (py_add (getvar x st) v); [now apply assign_num|constructor]. }
+  destruct (apply_write i st w) as [st1 e1]. cbn [fst snd] in *.
+  destruct (IH st1 Hws L1) as (E2 & L2).
+  destruct (apply_writes_store i st1 ws) as [st2 e2]. cbn [fst snd] in *.
+  split; [apply Forall_app; split; assumption|exact L2].
+Qed.
+
+Lemma write_to_num i ws s :
+  names_ok ws -> numbers_ok s ->
+  numbers_ok (fst (write_to i ws s)) /\ evs_num_ok (snd (write_to i ws s)).
+Proof.
+  intros H N. unfold write_to, apply_writes.
+  destruct (nth_error (players s) i) as [st|] eqn:E; [|cbn; split; [exact N|constructor]].
+  destruct (apply_writes_store_num i ws st H (N _ _ E)) as (E2 & L2).
+  destruct (apply_writes_store i st ws) as [st' evs]. cbn [fst snd] in *.
+  split; [|exact E2].
+  intros j x Hj. cbn in Hj. destruct (Nat.eq_dec i j) as [<-|Nj].
+  - rewrite (upd_nth_same _ _ _ _ E) in Hj. injection Hj as <-. exact L2.
+  - rewrite upd_nth_other in Hj by exact Nj. now apply N.
+Qed.
+
+Lemma mode_start_num c s :
+  cfg_num_ok c = true -> numbers_ok s ->
+  numbers_ok (fst (mode_start c s)) /\ evs_num_ok (snd (mode_start c s)).
+Proof.
+  intros OK N. unfold mode_start. destruct (mplayer s) as [p|]; [|split; [exact N|constructor]].
+  pose proof (write_to_num p (load_writes c (store_of s p)) s
+                (names_in_ok c _ OK (load_writes_names c _)) N) as (A & B).
+  destruct (write_to p (load_writes c (store_of s p)) s) as [s1 e1]. cbn in *. split; assumption.
+Qed.
+
+Lemma names_ok_builtin x v : x = n_ball \/ x = n_extra_balls -> names_ok [WAdd x v].
+Proof. intros [-> | ->]; constructor; [discriminate|constructor|discriminate|constructor]. Qed.
+
+Lemma start_turn_num c s :
+  cfg_num_ok c = true -> numbers_ok s ->
+  numbers_ok (fst (start_turn c s)) /\ evs_num_ok (snd (start_turn c s)).
+Proof.
+  intros OK N. unfold start_turn.
+  pose proof (write_to_num (cur s) [WAdd n_ball (VInt 1)] s (names_ok_builtin _ _ (or_introl eq_refl)) N) as (A & B).
+  destruct (write_to (cur s) [WAdd n_ball (VInt 1)] s) as [s1 e1]. cbn [fst snd] in *.
+  assert (N2 : numbers_ok (set_mplayer s1 (Some (cur s1)))) by exact A.
+  pose proof (mode_start_num c _ OK N2) as (A3 & B3).
+  destruct (mode_start c (set_mplayer s1 (Some (cur s1)))) as [s3 e3]. cbn [fst snd] in *.
+  split; [exact A3|apply Forall_app; split; assumption].
+Qed.
+
+Lemma dispatch_num c s e :
+  cfg_num_ok c = true -> numbers_ok s ->
+  numbers_ok (fst (fst (dispatch c s e))) /\ evs_num_ok (snd (fst (dispatch c s e))).
+Proof.
+  intros OK N. unfold dispatch. destruct (view s) as [v|]; [|split; [exact N|constructor]].
+  pose proof (device_handle_names c (store_of s v) e) as HN.
+  destruct (device_handle c (store_of s v) e) as [ws posted]. cbn [fst] in HN.
+  pose proof (write_to_num v ws s (names_in_ok c _ OK HN) N) as (A1 & B1).
+  destruct (write_to v ws s) as [s1 e1]. cbn [fst snd] in *.
+  pose proof (write_to_num (cur s1) (vp_writes c e) s1 (names_in_ok c _ OK (vp_writes_names c e)) A1) as (A2 & B2).
+  destruct (write_to (cur s1) (vp_writes c e) s1) as [s2 e2]. cbn [fst snd] in *.
+  split; [exact A2|apply Forall_app; split; assumption].
+Qed.
+
+Lemma run_queue_num c : cfg_num_ok c = true -> forall fuel s q, numbers_ok s ->
+  numbers_ok (fst (run_queue fuel c s q)) /\ evs_num_ok (snd (run_queue fuel c s q)).
+Proof.
+  intros OK. induction fuel as [|f IH]; intros s q N; cbn; [split; [exact N|constructor]|].
+  destruct q as [|e r]; [split; [exact N|constructor]|].
+  pose proof (dispatch_num c s e OK N) as (A1 & B1).
+  destruct (dispatch c s e) as [[s1 e1] posted]. cbn [fst snd] in *.
+  destruct (IH s1 (r ++ posted) A1) as (A2 & B2).
+  destruct (run_queue f c s1 (r ++ posted)) as [s2 e2]. cbn [fst snd] in *.
+  split; [exact A2|apply Forall_app; split; assumption].
+Qed.
+
+Lemma numbers_ok_init : numbers_ok init_state.
+Proof. intros [|i] st H; discriminate H. Qed.
+
+Lemma end_ball_num c s :
+  cfg_num_ok c = true -> numbers_ok s ->
+  numbers_ok (fst (end_ball c s)) /\ evs_num_ok (snd (end_ball c s)).
+Proof.
+  intros OK N. unfold end_ball.
+  destruct (truthy (getvar n_extra_balls (store_of (mode_stop s) (cur (mode_stop s))))).
+  - assert (N0 : numbers_ok (mode_stop s)) by exact N.
+    pose proof (write_to_num (cur (mode_stop s)) [WAdd n_extra_balls (VInt (-1))] (mode_stop s)
+                  (names_ok_builtin _ _ (or_intror eq_refl)) N0) as (A1 & B1).
+    destruct (write_to (cur (mode_stop s)) [WAdd n_extra_balls (VInt (-1))] (mode_stop s)) as [s1 e1].
+    cbn [fst snd] in *.
+    pose proof (mode_start_num c s1 OK A1) as (A2 & B2). destruct (mode_start c s1) as [s2 e2].
+    cbn [fst snd] in *. split; [exact A2|apply Forall_app; split; assumption].
+  - match goal with |- context [if ?b then _ else _] => destruct b end.
+    + split; [apply numbers_ok_init|constructor].
+    + apply start_turn_num; [exact OK|exact N].
+Qed.
+
+Lemma announce_num c i : evs_num_ok (announce i (fresh_player c i)).
+Proof.
+  unfold announce, evs_num_ok. apply Forall_forall. intros e H. apply in_flat_map in H as ([k v] & _ & H).
+  destruct (simple v); [|destruct H]. destruct H as [<-|[]]. reflexivity.
+Qed.
+
+Lemma add_player_num c s :
+  numbers_ok s -> numbers_ok (fst (add_player c s)) /\ evs_num_ok (snd (add_player c s)).
+Proof.
+  intros N. unfold add_player. cbn [fst snd]. split; [|apply announce_num].
+  intros j st H. cbn in H. destruct (Nat.lt_ge_cases j (length (players s))) as [Lt|Ge].
+  - rewrite nth_error_app1 in H by exact Lt. now apply N.
+  - rewrite nth_error_app2 in H by exact Ge.
+    destruct (j - length (players s))%nat as [|k] eqn:D; cbn in H; [|destruct k; discriminate H].
+    injection H as <-. assert (j = length (players s)) by lia. subst j. reflexivity.
+Qed.
+
+Lemma step_num c s o :
+  cfg_num_ok c = true -> numbers_ok s ->
+  numbers_ok (fst (step c s o)) /\ evs_num_ok (snd (step c s o)).
+Proof.
+  intros OK N. destruct o as [|e| |]; cbn [step].
+  - destruct (ingame s).
+    + match goal with |- context [if ?b then _ else _] => destruct b end;
+        [now apply add_player_num|split; [exact N|constructor]].
+    + set (s0 := mkSt [] 0 true false None None).
+      assert (N0 : numbers_ok s0) by (intros [|i] st H; discriminate H).
+      pose proof (add_player_num c s0 N0) as (A1 & B1).
+      destruct (add_player c s0) as [s1 e1]. cbn [fst snd] in *.
+      pose proof (start_turn_num c s1 OK A1) as (A2 & B2).
+      destruct (start_turn c s1) as [s2 e2]. cbn [fst snd] in *.
+      split; [exact A2|apply Forall_app; split; assumption].
+  - destruct (ingame s); [now apply run_queue_num|split; [exact N|constructor]].
+  - destruct (ingame s); [now apply end_ball_num|split; [exact N|constructor]].
+  - destruct (ingame s); [apply end_ball_num; [exact OK|exact N]|split; [exact N|constructor]].
+Qed.
+
+Lemma run_numbers_ok c : cfg_num_ok c = true -> forall ops s, numbers_ok s -> numbers_ok (run c s ops).
+Proof.
+  intros OK. induction ops as [|o r IH]; intros s N; cbn; [exact N|].
+  apply IH. now apply step_num.
+Qed.
+
+(* every event of every operation of every history carries the number (index + 1) of the player whose
+   variable changed *)
+Lemma player_num_correct_l c : cfg_num_ok c = true -> forall ops o,
+  Forall (fun e => ev_num e = VInt (Z.of_nat (ev_idx e) + 1)) (snd (step c (run c init_state ops) o)).
+Proof.
+  intros OK ops o. apply step_num; [exact OK|]. apply run_numbers_ok; [exact OK|apply numbers_ok_init].
+Qed.
+
+Example ex_cfg_num_ok : cfg_num_ok ex_cfg = true.
+Proof. reflexivity. Qed.
+
+(* ====================================================================================== *)
+(* the events of a history form, per player and variable, an exact chain                   *)
+
+Definition oget (b : option value) : value := match b with Some p => p | None => VInt 0 end.
+Definition onew (b : option value) : bool := match b with None => true | Some _ => false end.
+
+(* an assignment of v to a variable currently holding b that posts nothing: v is an object, or the
+   variable exists and v - b is falsy (a no-op assignment) *)
+Definition silent (b : option value) (v : value) : Prop :=
+  simple v && (truthy (change_of v (oget b)) || onew b) = false.
+
+Inductive quiet : option value -> option value -> Prop :=
+| q_refl b : quiet b b
+| q_step b v c : silent b v -> quiet (Some v) c -> quiet b c.
+
+Lemma quiet_trans a b c : quiet a b -> quiet b c -> quiet a c.
+Proof. induction 1; intros H2; [exact H2|]. eapply q_step; eauto. Qed.
+
+(* chain j x b evs a: the player_<x> events of player j in evs lead from value b to value a: every such
+   event carries the value held just before as prev_value (0 and new=true if there was none), the change
+   value - prev_value, is an effective change or a new variable, and between events only silent
+   assignments happen; after the last event the variable holds a (up to silent assignments) *)
+Inductive chain (j : nat) (x : name) : option value -> list event -> option value -> Prop :=
+| ch_nil b a : quiet b a -> chain j x b [] a
+| ch_skip b e r a : (ev_idx e <> j \/ ev_name e <> x) -> chain j x b r a -> chain j x b (e :: r) a
+| ch_ev b b' e r a :
+    ev_idx e = j -> ev_name e = x -> quiet b b' ->
+    ev_prev e = oget b' -> ev_new e = onew b' -> ev_announce e = false ->
+    ev_change e = change_of (ev_value e) (ev_prev e) -> simple (ev_value e) = true ->
+    (truthy (ev_change e) = true \/ onew b' = true) ->
+    chain j x (Some (ev_value e)) r a -> chain j x b (e :: r) a.
+
+Lemma chain_quiet_l j x b b' l a : quiet b b' -> chain j x b' l a -> chain j x b l a.
+Proof.
+  intros Q H. revert b Q. induction H; intros b0 Q.
+  - apply ch_nil. eapply quiet_trans; eauto.
+  - apply ch_skip; auto.
+  - eapply ch_ev with (b' := b'); eauto. eapply quiet_trans; eauto.
+Qed.
+
+Lemma chain_app j x b l1 m l2 a : chain j x b l1 m -> chain j x m l2 a -> chain j x b (l1 ++ l2) a.
+Proof.
+  intros H. revert l2 a. induction H; intros l2 a2 HH; cbn.
+  - eapply chain_quiet_l; eauto.
+  - apply ch_skip; auto.
+  - eapply ch_ev; eauto.
+Qed.
+
+Lemma chain_skip_all j x b l : Forall (fun e => ev_idx e <> j) l -> chain j x b l b.
+Proof.
+  induction 1; [apply ch_nil, q_refl|]. apply ch_skip; auto.
+Qed.
+
+Lemma assign_chain i st x v y :
+  chain i y (lookup y st) (snd (assign i st x v)) (lookup y (fst (assign i st x v))).
+Proof.
+  destruct (assign_exact_l i st x v) as (E1 & E2 & E3). rewrite E3.
+  destruct (Z.eq_dec y x) as [->|N].
+  - rewrite E1.
+    destruct (simple v && (truthy (change_of v (getvar x st)) || is_absent x st)) eqn:C.
+    + apply andb_true_iff in C as [C1 C2].
+      eapply ch_ev with (b' := lookup x st);
+        cbn [ev_idx ev_name ev_prev ev_new ev_announce ev_change ev_value].
+      * reflexivity.
+      * reflexivity.
+      * apply q_refl.
+      * unfold getvar, oget. now destruct (lookup x st).
+      * unfold is_absent, onew. now destruct (lookup x st).
+      * reflexivity.
+      * reflexivity.
+      * exact C1.
+      * apply orb_true_iff in C2 as [C2|C2]; [now left|right].
+        unfold is_absent, onew in *. now destruct (lookup x st).
+      * apply ch_nil, q_refl.
+    + apply ch_nil. eapply q_step; [|apply q_refl].
+      unfold silent. unfold getvar, is_absent in C. unfold oget, onew. now destruct (lookup x st).
+  - rewrite (E2 y N).
+    match goal with |- context [if ?b then _ else _] => destruct b end.
+    + apply ch_skip; [right; cbn; congruence|apply ch_nil, q_refl].
+    + apply ch_nil, q_refl.
+Qed.
+
+Lemma apply_writes_store_chain i y : forall ws st,
+  chain i y (lookup y st) (snd (apply_writes_store i st ws)) (lookup y (fst (apply_writes_store i st ws))).
+Proof.
+  induction ws as [|w ws IH]; intros st; cbn; [apply ch_nil, q_refl|].
+  assert (H1 : chain i y (lookup y st) (snd (apply_write i st w)) (lookup y (fst (apply_write i st w)))).
+  { destruct w as [x v|x v]; cbn; [apply assign_chain|].
+    destruct (py_add (getvar x st) v); [apply assign_chain|apply ch_nil, q_refl]. }
+  destruct (apply_write i st w) as [st1 e1]. cbn [fst snd] in H1.
+  specialize (IH st1). destruct (apply_writes_store i st1 ws) as [st2 e2]. cbn [fst snd] in *.
+  eapply chain_app; eauto.
+Qed.
+
+Definition chain_step (s s' : state) (evs : list event) : Prop :=
+  forall j y, chain j y (lookup y (store_of s j)) evs (lookup y (store_of s' j)).
+
+Lemma chain_step_refl s s' : players s' = players s -> chain_step s s' [].
+Proof. intros E j y. unfold store_of. rewrite E. apply ch_nil, q_refl. Qed.
+
+Lemma chain_step_trans a b c l1 l2 : chain_step a b l1 -> chain_step b c l2 -> chain_step a c (l1 ++ l2).
+Proof. intros H1 H2 j y. eapply chain_app; eauto. Qed.
+
+Lemma chain_step_eq a a' b b' l :
+  players a' = players a -> players b' = players b -> chain_step a b l -> chain_step a' b' l.
+Proof. intros E1 E2 H j y. unfold store_of. rewrite E1, E2. apply H. Qed.
+
+Lemma write_to_chain i ws s : chain_step s (fst (write_to i ws s)) (snd (write_to i ws s)).
+Proof.
+  intros j y.
+  pose proof (write_to_ok i ws s) as OKs.
+  pose proof (write_to_spec i ws s) as (_ & O & _).
+  destruct (nth_error (players s) i) as [st|] eqn:E.
+  - destruct (Nat.eq_dec j i) as [->|N].
+    + rewrite (write_to_store i ws s st E), (write_to_events i ws s st E), (store_of_nth _ _ _ E).
+      apply apply_writes_store_chain.
+    + rewrite (store_of_others i j s _ O N). apply chain_skip_all.
+      eapply Forall_impl; [|exact OKs]. intros e [_ He]. congruence.
+  - rewrite (write_to_events_none i ws s E).
+    unfold write_to, apply_writes. rewrite E. cbn. apply ch_nil, q_refl.
+Qed.
+
+Lemma mode_start_chain c s : chain_step s (fst (mode_start c s)) (snd (mode_start c s)).
+Proof.
+  unfold mode_start. destruct (mplayer s) as [p|]; [|now apply chain_step_refl].
+  pose proof (write_to_chain p (load_writes c (store_of s p)) s) as H.
+  destruct (write_to p (load_writes c (store_of s p)) s) as [s1 e1]. cbn [fst snd] in *.
+  eapply chain_step_eq; [reflexivity| |exact H]. reflexivity.
+Qed.
+
+Lemma start_turn_chain c s : chain_step s (fst (start_turn c s)) (snd (start_turn c s)).
+Proof.
+  unfold start_turn.
+  pose proof (write_to_chain (cur s) [WAdd n_ball (VInt 1)] s) as H1.
+  destruct (write_to (cur s) [WAdd n_ball (VInt 1)] s) as [s1 e1]. cbn [fst snd] in *.
+  pose proof (mode_start_chain c (set_mplayer s1 (Some (cur s1)))) as H2.
+  destruct (mode_start c (set_mplayer s1 (Some (cur s1)))) as [s3 e3]. cbn [fst snd] in *.
+  eapply chain_step_trans; [exact H1|]. eapply chain_step_eq; [| |exact H2]; reflexivity.
+Qed.
+
+Lemma dispatch_chain c s e : chain_step s (fst (fst (dispatch c s e))) (snd (fst (dispatch c s e))).
+Proof.
+  unfold dispatch. destruct (view s) as [v|]; [|now apply chain_step_refl].
+  destruct (device_handle c (store_of s v) e) as [ws posted].
+  pose proof (write_to_chain v ws s) as H1. destruct (write_to v ws s) as [s1 e1]. cbn [fst snd] in *.
+  pose proof (write_to_chain (cur s1) (vp_writes c e) s1) as H2.
+  destruct (write_to (cur s1) (vp_writes c e) s1) as [s2 e2]. cbn [fst snd] in *.
+  eapply chain_step_trans; eauto.
+Qed.
+
+Lemma run_queue_chain c : forall fuel s q,
+  chain_step s (fst (run_queue fuel c s q)) (snd (run_queue fuel c s q)).
+Proof.
+  induction fuel as [|f IH]; intros s q; cbn; [now apply chain_step_refl|].
+  destruct q as [|e r]; [now apply chain_step_refl|].
+  pose proof (dispatch_chain c s e) as H1. destruct (dispatch c s e) as [[s1 e1] posted].
+  specialize (IH s1 (r ++ posted)). destruct (run_queue f c s1 (r ++ posted)) as [s2 e2].
+  cbn [fst snd] in *. eapply chain_step_trans; eauto.
+Qed.
+
+Lemma end_ball_chain c s :
+  ingame (fst (end_ball c s)) = true -> ingame s = true ->
+  chain_step s (fst (end_ball c s)) (snd (end_ball c s)).
+Proof.
+  unfold end_ball.
+  destruct (truthy (getvar n_extra_balls (store_of (mode_stop s) (cur (mode_stop s))))).
+  - intros _ _.
+    pose proof (write_to_chain (cur (mode_stop s)) [WAdd n_extra_balls (VInt (-1))] (mode_stop s)) as H1.
+    destruct (write_to (cur (mode_stop s)) [WAdd n_extra_balls (VInt (-1))] (mode_stop s)) as [s1 e1].
+    pose proof (mode_start_chain c s1) as H2. destruct (mode_start c s1) as [s2 e2]. cbn [fst snd] in *.
+    eapply chain_step_trans; [|exact H2]. eapply chain_step_eq; [| |exact H1]; reflexivity.
+  - match goal with |- context [if ?b then _ else _] => destruct b end.
+    + cbn. intros F; discriminate F.
+    + intros _ _.
+      match goal with |- context [start_turn c ?x] => pose proof (start_turn_chain c x) as H end.
+      eapply chain_step_eq; [| |exact H]; reflexivity.
+Qed.
+
+(* the events of one operation, for every player that existed before it and every variable *)
+Lemma step_chain_l c s o :
+  ingame s = true -> ingame (fst (step c s o)) = true ->
+  forall j y, (j < length (players s))%nat ->
+    chain j y (lookup y (store_of s j)) (snd (step c s o)) (lookup y (store_of (fst (step c s o)) j)).
+Proof.
+  intros G G' j y Lj. destruct o as [|e| |]; cbn [step] in *; rewrite G in *.
+  - match goal with |- context [if ?b then _ else _] => destruct b end.
+    + unfold add_player. cbn [fst snd]. unfold store_of at 2. cbn [players set_players].
+      rewrite nth_error_app1 by exact Lj. fold (store_of s j).
+      apply chain_skip_all. apply Forall_forall. intros ev H.
+      unfold announce in H. apply in_flat_map in H as ([k v] & _ & H).
+      destruct (simple v); [|destruct H]. destruct H as [<-|[]]. cbn. lia.
+    + apply ch_nil, q_refl.
+  - apply run_queue_chain.
+  - now apply end_ball_chain.
+  - assert (H : chain_step (set_ending s true) (fst (end_ball c (set_ending s true)))
+                            (snd (end_ball c (set_ending s true)))) by (now apply end_ball_chain).
+    apply H.
+Qed.
+
+(* ====================================================================================== *)
+(* a player's first ball: the devices read the configured initial values                   *)
+
+Definition init_kvs (c : cfg) : list (name * value) :=
+  map (fun x => (c_var x, VLB (c_start_enabled x) false (LInt (c_start x)))) (counters c)
+  ++ map (fun x => (a_var x, VLB (a_start_enabled x) false (LBools (a_startv x)))) (accruals c)
+  ++ map (fun x => (s_envar x, VBool (s_start_enabled x))) (shots c).
+
+Definition initial_reads (c : cfg) : list (option value) :=
+  map (fun x => Some (VLB (c_start_enabled x) false (LInt (c_start x)))) (counters c)
+  ++ map (fun x => Some (VLB (a_start_enabled x) false (LBools (a_startv x)))) (accruals c)
+  ++ flat_map (fun x => [Some (VInt 0); Some (VBool (s_start_enabled x))]) (shots c).
+
+Definition mkW (kv : name * value) : write := WSet (fst kv) (snd kv).
+
+Lemma init_kvs_keys c : map fst (init_kvs c) = load_keys c.
+Proof. unfold init_kvs, load_keys. rewrite !map_app, !map_map. reflexivity. Qed.
+
+Lemma load_writes_fresh c st :
+  (forall k, In k (load_keys c) -> lookup k st = None) -> load_writes c st = map mkW (init_kvs c).
+Proof.
+  intros H. unfold load_writes, init_kvs. rewrite !map_app, !map_map.
+  assert (A : forall {X} (f : X -> name) (g : X -> value) (l : list X),
+             (forall x, In x l -> lookup (f x) st = None) ->
+             flat_map (fun x => match lookup (f x) st with None => [WSet (f x) (g x)] | Some _ => [] end) l
+             = map (fun x => mkW (f x, g x)) l).
+  { intros X f g l. induction l as [|x l IH]; intros Hl; cbn; [reflexivity|].
+    rewrite (Hl x (or_introl eq_refl)). cbn. f_equal. apply IH. intros y Hy. apply Hl. now right. }
+  rewrite (A _ c_var), (A _ a_var), (A _ s_envar); try reflexivity;
+    intros x Hx; apply H; unfold load_keys.
+  - apply in_or_app; right; apply in_or_app; right. now apply in_map.
+  - apply in_or_app; right; apply in_or_app; left. now apply in_map.
+  - apply in_or_app; left. now apply in_map.
+Qed.
+
+Lemma writes_set_lookup i : forall kvs st k v,
+  NoDup (map fst kvs) -> In (k, v) kvs ->
+  lookup k (fst (apply_writes_store i st (map mkW kvs))) = Some v.
+Proof.
+  induction kvs as [|[k0 v0] r IH]; intros st k v ND H; [destruct H|].
+  cbn [map]. inversion ND as [|? ? Hn ND']; subst.
+  cbn [apply_writes_store].
+  destruct (apply_write i st (mkW (k0, v0))) as [st1 e1] eqn:E1.
+  destruct (apply_writes_store i st1 (map mkW r)) as [st2 e2] eqn:E2. cbn [fst].
+  change st2 with (fst (st2, e2)). rewrite <- E2.
+  destruct H as [H|H].
+  - injection H as -> ->.
+    rewrite apply_writes_store_other.
+    + change st1 with (fst (st1, e1)). rewrite <- E1. cbn. rewrite assign_store. apply lookup_sset_same.
+    + apply Forall_forall. intros w Hw. apply in_map_iff in Hw as ([k' v'] & <- & Hk). cbn.
+      intros ->. apply Hn. cbn. apply in_map_iff. exists (k, v'). auto.
+  - now apply IH.
+Qed.
+
+Lemma writes_set_other i : forall kvs st k,
+  ~ In k (map fst kvs) -> lookup k (fst (apply_writes_store i st (map mkW kvs))) = lookup k st.
+Proof.
+  intros kvs st k H. apply apply_writes_store_other. apply Forall_forall.
+  intros w Hw. apply in_map_iff in Hw as ([k' v'] & <- & Hk). cbn. intros ->. apply H.
+  apply in_map_iff. exists (k, v'). auto.
+Qed.
+
+Lemma first_ball_reads_initial_l c i st :
+  NoDup (load_keys c) ->
+  (forall k, In k (persist_keys c) -> lookup k st = None) ->
+  (forall x, In x (shots c) -> ~ In (s_var x) (load_keys c)) ->
+  reads_of c (fst (apply_writes_store i st (load_writes c st))) = initial_reads c.
+Proof.
+  intros ND Abs Sv.
+  assert (AbsL : forall k, In k (load_keys c) -> lookup k st = None).
+  { intros k Hk. apply Abs. unfold load_keys, persist_keys in *.
+    apply in_app_or in Hk as [Hk|Hk]; [apply in_or_app; now left|].
+    apply in_app_or in Hk as [Hk|Hk]; [apply in_or_app; right; apply in_or_app; now left|].
+    apply in_or_app; right; apply in_or_app; right.
+    apply in_map_iff in Hk as (x & <- & Hx). apply in_flat_map. exists x. split; [exact Hx|right; now left]. }
+  rewrite (load_writes_fresh c st AbsL).
+  assert (NDk : NoDup (map fst (init_kvs c))) by (now rewrite init_kvs_keys).
+  unfold reads_of, initial_reads. f_equal; [|f_equal].
+  - apply map_ext_in. intros x Hx. apply writes_set_lookup; [exact NDk|].
+    unfold init_kvs. apply in_or_app; left.
+    apply in_map_iff. exists x. auto.
+  - apply map_ext_in. intros x Hx. apply writes_set_lookup; [exact NDk|].
+    unfold init_kvs. apply in_or_app; right; apply in_or_app; left.
+    apply in_map_iff. exists x. auto.
+  - rewrite !flat_map_concat_map. f_equal. apply map_ext_in. intros x Hx.
+    unfold getvar. rewrite writes_set_other by (rewrite init_kvs_keys; now apply Sv).
+    rewrite (Abs (s_var x)).
+    + rewrite (writes_set_lookup i (init_kvs c) st (s_envar x) (VBool (s_start_enabled x)) NDk); [reflexivity|].
+      unfold init_kvs. apply in_or_app; right; apply in_or_app; right. apply in_map_iff. exists x. auto.
+    + unfold persist_keys. apply in_or_app; right; apply in_or_app; right.
+      apply in_flat_map. exists x. split; [exact Hx|now left].
+Qed.
+
+Example ex_first_ball_hyp :
+  NoDup (load_keys ex_cfg)
+  /\ (forall k, In k (persist_keys ex_cfg) -> lookup k (fresh_player ex_cfg 1) = None)
+  /\ (forall x, In x (shots ex_cfg) -> ~ In (s_var x) (load_keys ex_cfg)).
+Proof.
+  split; [|split].
+  - cbn. repeat constructor; cbn; intuition discriminate.
+  - cbn. intros k H. repeat (destruct H as [<-|H]; [reflexivity|]). destruct H.
+  - cbn. intros x [<-|[]]. cbn. intuition discriminate.
+Qed.
+
+(* ---- the player number ----------------------------------------------------------------- *)
+Lemma fresh_player_number_l c i : lookup n_number (fresh_player c i) = Some (VInt (Z.of_nat i + 1)).
+Proof. reflexivity. Qed.
+
+Lemma number_kept_l i st ws :
+  Forall (fun w => wname w <> n_number) ws ->
+  numvar (fst (apply_writes_store i st ws)) = numvar st.
+Proof. intros H. unfold numvar. now rewrite apply_writes_store_other. Qed.
+
+Example ex_chain :
+  ingame ex_s = true /\ ingame (fst (step ex_cfg ex_s (Post 100))) = true
+  /\ length (snd (step ex_cfg ex_s (Post 100))) = 2%nat
+  /\ lookup n_score (store_of ex_s 0) = Some (VInt 20)
+  /\ lookup n_score (store_of (fst (step ex_cfg ex_s (Post 100))) 0) = Some (VInt 30)
+  /\ lookup 14 (store_of (fst (step ex_cfg ex_s (Post 100))) 0) = Some (VInt 1000).
+Proof. vm_compute. repeat split. Qed.
